@@ -632,3 +632,212 @@ Section Statements.
     now rewrite run_workflow_ready by apply WF.
   Qed.
 End Statements.
+
+(* ------------------------------------------------------------------ *)
+(* nested schedules: sub-workflows may themselves complete in any order *)
+(* ------------------------------------------------------------------ *)
+
+(* induction on logic INTO the steps of sub-workflows *)
+Section LogicDeepInd.
+  Variable P : logic -> Prop.
+  Hypothesis Hfn : forall f, P (LFn f).
+  Hypothesis Hsub : forall n r ss, Forall (fun s => P (s_logic s)) ss -> P (LSub n r ss).
+  Hypothesis Hsw : forall on cases d,
+      Forall (fun c => P (snd c)) cases -> (forall lg, d = Some lg -> P lg) -> P (LSwitch on cases d).
+  Hypothesis Herr : forall o, P (LErr o).
+
+  Fixpoint logic_deep_ind (lg : logic) : P lg :=
+    match lg with
+    | LFn f => Hfn f
+    | LSub n r ss =>
+        Hsub n r ss
+             ((fix go (l : list step) : Forall (fun s => P (s_logic s)) l :=
+                 match l with
+                 | [] => Forall_nil _
+                 | s :: r' =>
+                     Forall_cons s
+                       (match s as s0 return P (s_logic s0) with
+                        | mkStep _ _ _ _ _ g _ _ => logic_deep_ind g
+                        end) (go r')
+                 end) ss)
+    | LSwitch on cases d =>
+        Hsw on cases d
+            ((fix go (l : list (string * logic)) : Forall (fun c => P (snd c)) l :=
+                match l with
+                | [] => Forall_nil _
+                | (k, x) :: r => Forall_cons (k, x) (logic_deep_ind x) (go r)
+                end) cases)
+            (match d as d0 return (forall lg, d0 = Some lg -> P lg) with
+             | Some x => fun lg e => match e in (_ = y) return (match y with Some z => P z | None => True end)
+                                     with eq_refl => logic_deep_ind x end
+             | None => fun lg e => match e in (_ = y) return (match y with Some z => P z | None => True end)
+                                   with eq_refl => I end
+             end)
+    | LErr o => Herr o
+    end.
+End LogicDeepInd.
+
+(* labels pairwise distinct in every sub-workflow, at every depth *)
+Fixpoint deep_nodup (lg : logic) : bool :=
+  match lg with
+  | LFn _ | LErr _ => true
+  | LSub _ _ ss =>
+      nodup_str (map s_label ss) &&
+      (fix go (l : list step) : bool :=
+         match l with
+         | [] => true
+         | s :: r => (match s with mkStep _ _ _ _ _ g _ _ => deep_nodup g end) && go r
+         end) ss
+  | LSwitch _ cases d =>
+      (fix go (l : list (string * logic)) : bool :=
+         match l with
+         | [] => true
+         | (_, g) :: r => deep_nodup g && go r
+         end) cases &&
+      match d with Some g => deep_nodup g | None => true end
+  end.
+
+Lemma nodup_str_NoDup l : nodup_str l = true -> NoDup l.
+Proof.
+  induction l as [|x l IH]; cbn; [constructor|].
+  intros H. apply andb_prop in H. destruct H as [H1 H2]. constructor; [|auto].
+  intros Hin. apply mem_str_In in Hin. rewrite Hin in H1. discriminate.
+Qed.
+
+Lemma deep_nodup_sub n r ss :
+  deep_nodup (LSub n r ss) = true ->
+  NoDup (map s_label ss) /\ Forall (fun s => deep_nodup (s_logic s) = true) ss.
+Proof.
+  cbn. intros H. apply andb_prop in H. destruct H as [H1 H2]. split; [now apply nodup_str_NoDup|].
+  clear H1. induction ss as [|s ss IH]; [constructor|].
+  apply andb_prop in H2. destruct H2 as [Hs Hr]. constructor; [|auto].
+  destruct s. exact Hs.
+Qed.
+
+Lemma deep_nodup_switch on cases d :
+  deep_nodup (LSwitch on cases d) = true ->
+  Forall (fun c => deep_nodup (snd c) = true) cases /\ (forall lg, d = Some lg -> deep_nodup lg = true).
+Proof.
+  cbn. intros H. apply andb_prop in H. destruct H as [H1 H2]. split.
+  - clear H2. induction cases as [|[k g] cases IH]; [constructor|].
+    apply andb_prop in H1. destruct H1 as [Hg Hr]. constructor; auto.
+  - intros lg ->. exact H2.
+Qed.
+
+Section Nested.
+  Variable fn_sem : fid -> json -> fres.
+  Notation rl := (run_logic fn_sem).
+
+  (* what _reconcile_step_logic makes of a nested reconcile_workflow Result *)
+  Definition wrap_sub (n : string) (inputs : json) (w : wres) : lres :=
+    {| r_out := match w_result w with
+                | UList _ => SVal (JMap (w_state w))
+                | UNon o => of_outcome o
+                end;
+       r_rids := w_rids w;
+       r_trace := {| i_path := []; i_tgt := TgSub n; i_inputs := inputs; i_calls := [] |} :: w_trace w |}.
+
+  (* an evaluator of Logic that follows _reconcile_step_logic but whose
+     sub-workflows complete THEIR steps in some order of their own (chosen per
+     evaluation), using the same kind of evaluator one level down *)
+  Definition sched_closed (rl' : logic -> json -> env -> lres) : Prop :=
+    (forall f inputs en, rl' (LFn f) inputs en = rl (LFn f) inputs en) /\
+    (forall o inputs en, rl' (LErr o) inputs en = mk (SNon o)) /\
+    (forall on cases d inputs en,
+        rl' (LSwitch on cases d) inputs en =
+        match select_case on cases d inputs en with
+        | Some lg => rl' lg inputs en
+        | None => mk (SNon NPermFail)
+        end) /\
+    (forall n r ss inputs en,
+        exists w, rl' (LSub n r ss) inputs en = wrap_sub n inputs w /\
+                  match r with
+                  | Some o => w = not_ready o
+                  | None => if deps_closed ss
+                            then NoDup (map s_label ss) ->
+                                 exists sched, sched_result rl' ss inputs n sched = Some w
+                            else w = aborted n ss
+                  end).
+
+  Lemma run_step_g_ext_rl (rl1 rl2 : logic -> json -> env -> lres) s parent done :
+    (forall inputs en, rl1 (s_logic s) inputs en = rl2 (s_logic s) inputs en) ->
+    run_step_g rl1 s parent done = run_step_g rl2 s parent done.
+  Proof.
+    intros H. unfold run_step_g. destruct (step_plan s parent done) as [r|inputs en|its en]; [reflexivity| |].
+    - now rewrite H.
+    - f_equal. unfold mapi. apply mapi_from_ext. intros k a. now rewrite H.
+  Qed.
+
+  Lemma run_steps_g_ext_rl (rl1 rl2 : logic -> json -> env -> lres) ss parent :
+    Forall (fun s => forall inputs en, rl1 (s_logic s) inputs en = rl2 (s_logic s) inputs en) ss ->
+    forall done, run_steps_g rl1 ss parent done = run_steps_g rl2 ss parent done.
+  Proof.
+    induction 1 as [|s ss Hs _ IH]; intros done; cbn; [reflexivity|].
+    now rewrite (run_step_g_ext_rl rl1 rl2 s parent done Hs), IH.
+  Qed.
+
+  (* the generic form of result_schedule_independent_thm *)
+  Lemma sched_result_generic (rl' : logic -> json -> env -> lres) name steps trigger sched w :
+    well_formed steps -> sched_result rl' steps trigger name sched = Some w ->
+    w = assemble name steps (run_steps_g rl' steps trigger []).
+  Proof.
+    intros WF. unfold sched_result.
+    destruct (exec_all rl' steps trigger st_init sched) as [st|] eqn:He; [|discriminate].
+    destruct (complete steps st) eqn:Hc; [|discriminate].
+    destruct (complete_unique_thm rl' steps trigger WF sched st He Hc) as [-> _].
+    now intros [= <-].
+  Qed.
+
+  (* however the steps of sub-workflows interleave, at whatever depth, every
+     evaluation of Logic returns what the sequential model computes *)
+  Theorem nested_schedules_thm rl' :
+    sched_closed rl' ->
+    forall lg, deep_nodup lg = true -> forall inputs en, rl' lg inputs en = rl lg inputs en.
+  Proof.
+    intros (Cfn & Cerr & Csw & Csub).
+    induction lg as [f|n r ss IH|on cases d IHc IHd|o] using logic_deep_ind; intros Hd inputs en.
+    - apply Cfn.
+    - destruct (Csub n r ss inputs en) as (w & -> & Hw).
+      destruct (deep_nodup_sub n r ss Hd) as [Hn Hss].
+      cbn [run_logic]. fold (wrap_sub n inputs (run_wf_g rl n r ss inputs)). f_equal.
+      unfold run_wf_g. destruct r as [o|]; [exact Hw|].
+      destruct (deps_closed ss) eqn:Hc; [|exact Hw].
+      destruct (Hw Hn) as [sched Hs].
+      rewrite (sched_result_generic rl' n ss inputs sched w (conj Hc Hn) Hs). f_equal.
+      apply run_steps_g_ext_rl. rewrite Forall_forall in *. intros s Hs' i e.
+      apply IH; auto.
+    - rewrite Csw, run_logic_switch.
+      destruct (select_case on cases d inputs en) as [lg|] eqn:E; [|reflexivity].
+      destruct (deep_nodup_switch on cases d Hd) as [Hcs Hdd].
+      apply select_case_in in E. destruct E as [E|E].
+      + apply in_map_iff in E. destruct E as ([k x] & <- & Hin).
+        rewrite Forall_forall in IHc, Hcs. exact (IHc _ Hin (Hcs _ Hin) inputs en).
+      + exact (IHd lg E (Hdd lg E) inputs en).
+    - rewrite Cerr. reflexivity.
+  Qed.
+
+  (* not vacuous: the sequential evaluator is such an evaluator (its sub-workflows use the listed schedule) *)
+  Lemma run_logic_sched_closed : sched_closed rl.
+  Proof.
+    repeat split.
+    - intros on cases d inputs en. apply run_logic_switch.
+    - intros n r ss inputs en. exists (run_wf_g rl n r ss inputs). split; [reflexivity|].
+      unfold run_wf_g. destruct r as [o|]; [reflexivity|].
+      destruct (deps_closed ss) eqn:Hc; [|reflexivity].
+      intros Hn. exists (listed_schedule rl inputs ss []).
+      exact (listed_schedule_complete rl ss inputs (conj Hc Hn) n).
+  Qed.
+
+  (* so for a whole pass: any schedule of the top-level steps, with any schedules inside *)
+  Theorem nested_result_thm rl' name steps trigger sched w :
+    sched_closed rl' -> well_formed steps ->
+    Forall (fun s => deep_nodup (s_logic s) = true) steps ->
+    sched_result rl' steps trigger name sched = Some w ->
+    w = run_workflow fn_sem name None steps trigger.
+  Proof.
+    intros Hc WF Hd Hs. rewrite (sched_result_generic rl' name steps trigger sched w WF Hs).
+    rewrite run_workflow_ready by apply WF. f_equal. unfold run_steps.
+    apply run_steps_g_ext_rl. rewrite Forall_forall in *. intros s Hin i e.
+    apply nested_schedules_thm; auto.
+  Qed.
+End Nested.
